@@ -691,6 +691,123 @@ pub fn generate(seed: u64, thorough: bool, emit: &mut dyn FnMut(String)) {
             emit_mat(emit, n, n, &a);
         }
     }
+    let mut r6 = Rng::new(seed ^ 0xC14_0006);
+    block_boundaries(&mut r6, thorough, emit);
+    resonant(&mut r6, thorough, emit);
+}
+
+/// BLOCK BOUNDARIES (sixth seeded round, category O): a blocked / panelled / unrolled reflector application (rows, columns,
+/// accumulation into Q), norm or dot product changes behaviour exactly when the order, the length n-k-1 of a reflector or
+/// the column index passes 16, 32, 64 (128 in the thorough tier): every order blk-1, blk, blk+1, blk+2, 2 blk+1 with
+/// non-constant NON-symmetric dense data, and (orders up to 34 in the quick tier) the same with the skip branch AT the
+/// boundary: the sub-columns k = blk-2, blk-1, blk exactly zero below the sub-diagonal / entirely zero, and a leading
+/// block that is already upper Hessenberg up to column blk-1.  Judged by the plug-in's exact identities (Q^T Q = I,
+/// Q H Q^T = A, zero pattern, in exact dyadic arithmetic) and the correspondence K.
+fn block_boundaries(rng: &mut Rng, thorough: bool, emit: &mut dyn FnMut(String)) {
+    for &blk in &[16usize, 32, 64, 128] {
+        for n in [blk - 1, blk, blk + 1, blk + 2, 2 * blk + 1] {
+            if n > 130 || (n > 66 && !thorough) {
+                continue;
+            }
+            let fl = rng.below(4);
+            let a = dense(rng, n, fl);
+            emit_mat(emit, n, n, &a);
+            if n > 34 && !thorough {
+                continue;
+            }
+            // exact zeros in the sub-columns at the boundary
+            let mut b = dense(rng, n, 0);
+            for (t, k) in [blk - 2, blk - 1, blk].into_iter().enumerate() {
+                if k + 2 >= n {
+                    continue;
+                }
+                let from = if (t + n) % 2 == 0 { k + 1 } else { k + 2 };
+                for i in from..n {
+                    b[i * n + k] = if rng.chance(1, 5) { -0.0 } else { 0.0 };
+                }
+            }
+            let e = *rng.pick(&[0, 0, 40, -40]);
+            scale(&mut b, e);
+            emit_mat(emit, n, n, &b);
+            // already upper Hessenberg up to the boundary, dense after it
+            let mut c = dense(rng, n, 1);
+            for k in 0..(blk - 1).min(n) {
+                for i in k + 2..n {
+                    c[i * n + k] = 0.0;
+                }
+            }
+            emit_mat(emit, n, n, &c);
+        }
+    }
+}
+
+/// RESONANT / EXACT-RELATION DATA (sixth seeded round, category P): small-integer matrices whose sub-columns have an EXACT
+/// norm (Pythagorean tuples 3-4, 5-12, 8-15, 1-2-2, 2-3-6, 1-4-8: u1 and tau are exact), a zero first entry (tau exactly 1,
+/// either sign of zero), a single non-zero entry (tau exactly 2: the column is already reduced, the reflector only flips a
+/// sign) - each with the first entry positive and negative -, so that updates cancel to exactly 0; and the same relations
+/// missed by one ulp, 2^-50, 2^-40, 2^-30 relative in one entry of the sub-column; whole matrix scaled by a power of two.
+fn resonant(rng: &mut Rng, thorough: bool, emit: &mut dyn FnMut(String)) {
+    const TUPLES: [&[f64]; 8] = [&[3.0, 4.0], &[5.0, 12.0], &[8.0, 15.0], &[1.0, 2.0, 2.0], &[2.0, 3.0, 6.0], &[1.0, 4.0, 8.0], &[0.0, 3.0, 4.0], &[4.0, 0.0, 3.0]];
+    let reps = if thorough { 20 } else { 1 };
+    for k in 0..120 * reps {
+        let n = 3 + k % 7;
+        let mut a: Vec<f64> = (0..n * n).map(|_| rng.range(-4, 4) as f64).collect();
+        let col = if k % 3 == 0 { 0 } else { rng.below(n as u64 - 2) as usize };
+        let len = n - col - 1;
+        let mut sub = vec![0.0; len];
+        match k % 4 {
+            0 | 1 => {
+                let t = TUPLES[rng.below(8) as usize];
+                for (i, x) in t.iter().enumerate() {
+                    if i < len {
+                        sub[i] = *x;
+                    }
+                }
+                if t.len() > len {
+                    sub = vec![0.0; len];
+                    sub[0] = 3.0;
+                    if len > 1 {
+                        sub[len - 1] = 4.0;
+                    }
+                }
+                if rng.chance(1, 2) {
+                    // spread the tuple over the sub-column (the norm does not change)
+                    let p = 1 + rng.below(len as u64 - 1).min(len as u64 - 1) as usize;
+                    if len > 2 {
+                        sub[1..].rotate_right(p % (len - 1));
+                    }
+                }
+            }
+            2 => {
+                // zero first entry: tau = 1
+                sub[0] = if rng.chance(1, 2) { -0.0 } else { 0.0 };
+                sub[len - 1] = rng.range(1, 4) as f64;
+                if len > 2 && rng.chance(1, 2) {
+                    sub[1] = 0.0;
+                }
+            }
+            _ => sub[0] = rng.range(1, 5) as f64, // single entry: tau = 2
+        }
+        for x in sub.iter_mut() {
+            if rng.chance(1, 2) {
+                *x = -*x;
+            }
+        }
+        for (i, x) in sub.iter().enumerate() {
+            a[(col + 1 + i) * n + col] = *x;
+        }
+        if k % 5 == 1 {
+            let i = col + 1 + rng.below(len as u64) as usize;
+            let d = *rng.pick(&[f64::EPSILON, -f64::EPSILON / 2.0, 2f64.powi(-50), -(2f64.powi(-40)), 2f64.powi(-40), 2f64.powi(-30)]);
+            let x = a[i * n + col];
+            a[i * n + col] = if x == 0.0 { d } else { x * (1.0 + d) };
+        }
+        if k % 5 == 3 {
+            let e = *rng.pick(&[40, -40, 30, -70, 60, 1, -1]);
+            scale(&mut a, e);
+        }
+        emit_mat(emit, n, n, &a);
+    }
 }
 
 /// `extreme`: the entries are within 2^-24..2^24 of 1, so 2^+-450 keeps every square and sum of squares in range
